@@ -97,12 +97,20 @@ def newInfo (o : RObj) : RInfo :=
     parseErr := parseErrOf o, alloc := allocOf o, maxPods := maxPodsOf o, reserved := o.reserved,
     names := namesOf o, allocated := vzero, assigned := [] }
 
-/-- ReservationInfo.UpdateReservation: Allocated is RE-MASKED with the new names (not recomputed from
-    AssignedPods), Reserved is masked. -/
+/-- Σ over the assigned pods of their recorded request masked by the reserved dimensions
+    (`quotav1.Add` of `quotav1.Mask(requirement.Requests, ResourceNames)` over AssignedPods) -/
+def sumReq (m : Mask) : List Pod → Nat → Int
+  | [], _ => 0
+  | p :: t, d => (if m d then p.req d else 0) + sumReq m t d
+
+/-- ReservationInfo.UpdateReservation: Allocated is masked with the new names and then, when pods are
+    assigned, recomputed from them (recalculateAllocatedOfAssignedPods); Reserved is masked. -/
 def updInfo (r : RInfo) (o : RObj) : RInfo :=
   { r with node := o.node, phase := o.phase, once := o.once, term := o.term, policy := o.policy,
            parseErr := parseErrOf o, alloc := allocOf o, maxPods := maxPodsOf o,
-           names := namesOf o, allocated := vmask (namesOf o) r.allocated,
+           names := namesOf o,
+           allocated := if r.assigned.isEmpty then vmask (namesOf o) r.allocated
+                        else sumReq (namesOf o) r.assigned,
            reserved := vmask (namesOf o) o.reserved }
 
 /-- ReservationInfo.IsMatchable -/
@@ -204,21 +212,33 @@ def deletePods (c : Cache) (ru : Nat) (us : List Nat) : Cache :=
     let r := us.foldl removeAssigned r0
     dropAllocIfEmpty { c with infos := setInfo c.infos r } r ru
 
-/-- reservationCache.updatePod (cache.go:1047) -/
-def updatePod (c : Cache) (oldU newU : Nat) (oldPod newPod : Option Pod) : Cache :=
-  let c := match findInfo c oldU, oldPod with
-    | some r0, some p =>
+/-- reservationCache.updatePod (cache.go:1047), first half: `oldRInfo != nil && oldPod != nil` -/
+def updatePodOld (c : Cache) (oldU : Nat) (oldPod : Option Pod) : Cache :=
+  match oldPod with
+  | none => c
+  | some p =>
+    match findInfo c oldU with
+    | none => c
+    | some r0 =>
       let r := removeAssigned r0 p.uid
       dropAllocIfEmpty { c with infos := setInfo c.infos r } r oldU
-    | _, _ => c
-  match findInfo c newU, newPod with
-  | some r0, some p =>
-    let r := addAssigned r0 p
-    let c := { c with infos := setInfo c.infos r }
-    if isMatchable r && r.assigned.length > 0 && r.node != 0 then
-      { c with allocIdx := idxAdd c.allocIdx r.node newU }
-    else c
-  | _, _ => c
+
+/-- second half: `newRInfo != nil && newPod != nil` (looked up AFTER the removal) -/
+def updatePodNew (c : Cache) (newU : Nat) (newPod : Option Pod) : Cache :=
+  match newPod with
+  | none => c
+  | some p =>
+    match findInfo c newU with
+    | none => c
+    | some r0 =>
+      let r := addAssigned r0 p
+      let c := { c with infos := setInfo c.infos r }
+      if isMatchable r && r.assigned.length > 0 && r.node != 0 then
+        { c with allocIdx := idxAdd c.allocIdx r.node newU }
+      else c
+
+def updatePod (c : Cache) (oldU newU : Nat) (oldPod newPod : Option Pod) : Cache :=
+  updatePodNew (updatePodOld c oldU oldPod) newU newPod
 
 /-! ### event-handler glue -/
 
